@@ -70,6 +70,13 @@ LitRef == /\ Running /\ Top.ph = "start" /\ Top.n.op \in {"lit", "ref"}
                 THEN Finish(SetTop(ctxs, [C EXCEPT !.st = FastForward(Env, C.st, j)]), log, Ret("ok", <<[s |-> Toks[j].v]>>, TRUE))
                 ELSE Finish(ctxs, log, Ret("no", <<>>, FALSE))
 
+\* a Parseable child implemented by user code: exactly one token through PeekingLexer.Next()
+UserLeaf == /\ Running /\ Top.ph = "start" /\ Top.n.op = "user"
+            /\ Emit(<<>>)
+            /\ LET p == NxtFrom(Env, C.st.raw) IN
+               IF IsEOF(Env, p) THEN Finish(ctxs, log, Ret("no", <<>>, FALSE))
+               ELSE Finish(SetTop(ctxs, [C EXCEPT !.st = [raw |-> p + 1, cur |-> C.st.cur + 1, fc |-> C.st.fc]]), log, Ret("ok", <<[user |-> Toks[p].v]>>, TRUE))
+
 \* ---------------------------------------------------------------- sequence
 SeqStart == /\ Running /\ Top.ph = "start" /\ Top.n.op = "seq"
           /\ Emit(<<>>)
@@ -214,7 +221,7 @@ MInit == /\ gi \in 1..Len(Cases) /\ ii \in 1..Len(Cases[gi].inputs) /\ ki \in 1.
          /\ ctxs = <<[st |-> [raw |-> 1, cur |-> 0, fc |-> 0], pend |-> <<>>, nid0 |-> 1]>>
          /\ log = <<>> /\ nid = 1 /\ ret = NoRet /\ evs = <<>>
 
-MNext == \/ LitRef \/ SeqStart \/ SeqRet \/ AltStart \/ AltRet \/ GrpStart \/ GrpRet \/ CapStart \/ CapRet
+MNext == \/ LitRef \/ UserLeaf \/ SeqStart \/ SeqRet \/ AltStart \/ AltRet \/ GrpStart \/ GrpRet \/ CapStart \/ CapRet
          \/ ProdStart \/ ProdRet \/ NegStart \/ NegRet \/ LookStart \/ LookRet \/ Terminate
 MSpec == MInit /\ [][MNext]_mvars /\ WF_mvars(MNext)
 
